@@ -208,10 +208,19 @@ EvRet ==
          predictsOk == ("predicted" \in DOMAIN cl /\ cl.predicted # ""
                         /\ \A i \in 1..Len(cl.called) : ~sch[cl.called[i]].multi)
                        => cl.predicted = x.res
+         \* C03: a mutation issued beyond the queue limit is Canceled (one Exception
+         \* is let in: Add when not in error, Remove when in error - machine.go
+         \* 862-867, 1092-1097); judged on what each handler-issued mutation met
+         limitOk == \A i \in 1..Len(x.nestedq) :
+                      LET n == x.nestedq[i] IN
+                      (n.qlen >= QueueLimit
+                       /\ ~(n.type = "add" /\ n.exc /\ ~n.iserr)
+                       /\ ~(n.type = "remove" /\ n.exc /\ n.iserr))
+                        => n.res = "canceled"
          v0 == IF lost THEN [AllTrue EXCEPT !.nocrash = ~panicked, !.nohang = ~hung]
                ELSE IF firstTx # None /\ firstTx.faulted
                     THEN [AllTrue EXCEPT !.c08 = c08ret]
-                    ELSE [RetVerdict(p, o) EXCEPT !.c08 = c08ret, !.c03 = @ /\ predictsOk]
+                    ELSE [RetVerdict(p, o) EXCEPT !.c08 = c08ret, !.c03 = @ /\ predictsOk /\ limitOk]
          v == IF "views" \in DOMAIN x /\ ~lost
               THEN [v0 EXCEPT !.c01 = ViewsAgree(idx, x.views)
                                       /\ x.views.active = x.active /\ x.views.time = x.time]
